@@ -512,6 +512,38 @@ func (g *gen) leaf(inArr bool) *node {
 	}
 }
 
+// bigConvTree: a whole-binary conversion (tonumber / tostring / explode - the operations that read a binary through a byte view,
+// front to back) of a binary of 1 100 .. 4 096 bytes whose parts meet OFF a byte boundary: 1..7 bits in front of a long run of
+// bytes, concatenated through an array and turned into bits or (front-padded) bytes.  The random trees above keep these
+// conversions away from big operands; this family is where thousands of bytes pass through the carry buffers of the byte view.
+func (g *gen) bigConvTree() *node {
+	k := 1 + g.rng.Intn(7)
+	front := &node{kind: "lit", txt: fmt.Sprintf("([%d] | tobits | .[%d:])", g.rng.Intn(256), 8-k), res: "bin"}
+	n := 1100 + g.rng.Intn(2997)
+	b := g.randBytes(n)
+	fin := []string{"tonumber", "tostring", "explode"}[g.rng.Intn(3)]
+	if fin != "tonumber" { // text: mostly printable ASCII, so that a shifted or zeroed byte is a different character
+		for i := range b {
+			if g.rng.Intn(50) != 0 {
+				b[i] = byte(32 + g.rng.Intn(95))
+			}
+		}
+	}
+	ps := make([]string, n)
+	for i, x := range b {
+		ps[i] = strconv.Itoa(int(x))
+	}
+	body := &node{kind: "lit", txt: "[" + strings.Join(ps, ",") + "]", res: "arr", big: true}
+	es := []*node{front, body}
+	if g.rng.Intn(3) == 0 { // the odd bits behind the bytes: the front padding of tobytes does the shifting
+		es = []*node{body, front}
+	}
+	arr := &node{kind: "arr", es: es, res: "arr", big: true}
+	conv := &node{kind: "op", e: arr, o: opRec{Op: []string{"tobits", "tobytes"}[g.rng.Intn(2)]}, res: "bin", big: true}
+	res := map[string]string{"tonumber": "num", "tostring": "str", "explode": "arr"}[fin]
+	return &node{kind: "op", e: conv, o: opRec{Op: fin}, res: res, big: true}
+}
+
 func (g *gen) bound(big bool) int {
 	switch r := g.rng.Intn(10); {
 	case r < 5:
@@ -651,6 +683,9 @@ func randDriver(nTrees int, outPath string) {
 		var parts []string
 		for t := base; t < base+chunk && t < nTrees; t++ {
 			root := g.tree(1+rng.Intn(7), false)
+			if t%40 == 7 {
+				root = g.bigConvTree()
+			}
 			first := g.nextID
 			txt := g.text(root)
 			trees = append(trees, rt{root, first, g.nextID - 1, txt})
